@@ -330,6 +330,15 @@ func main() {
 		}
 		o.Queries = append(o.Queries, q)
 		o.Seconds += q.Result.Seconds
+		if q.Result.Outputs["govc"] != "" && strings.HasPrefix(q.Result.Outputs["govc"], "not attempted") {
+			if o.Status == "discharged" {
+				o.Status = "not-attempted"
+			}
+			continue
+		}
+		if o.Status == "not-attempted" && q.Result.Status != "unsat" {
+			o.Status = "undecided"
+		}
 		switch q.Result.Status {
 		case "unsat":
 			if o.Solver == "" {
